@@ -410,6 +410,18 @@ def fn_field(case, ctx):
                          f"(order {order}, smooth_normals {bool(case['smooth_normals'])})"):
             return
 
+    # vertex field following the edges in the connection's own metric (smooth_normals off, or an odd order): at a border
+    # vertex the connection is scaled so that both border edges sit at a multiple of 2pi/order, so the constraint, measured
+    # against either border edge, is the trivial frame
+    if elements == "vertices" and not case["cad"] and not case["features"] and (not case["smooth_normals"] or order % 2 == 1):
+        for (a, b) in sorted(border_e):
+            for (u, v) in ((a, b), (b, a)):
+                q = var0[u] * cmath.exp(-1j * order * float(ff.conn.transport(u, v)))
+                if not ctx.check(abs(q - 1) <= 1e-9, "border-vertex-not-aligned",
+                                 f"border vertex {u}: constraint {var0[u]} measured against border edge {(u, v)} is {q}, expected 1 "
+                                 f"(order {order}, transport {float(ff.conn.transport(u, v))!r})"):
+                    return
+
     # operators as the library defines them (connection may have been corrected by initialize())
     L = A = None
     if free:
@@ -838,10 +850,10 @@ def self_test():
 
 
 SUBCHECKS = [
-    SubCheck("field", field_case(), fn_field, quick=4000, thorough=8000),
-    SubCheck("renumber_vertices", renumber_case("vertices"), fn_renumber, quick=800, thorough=1500),
-    SubCheck("renumber_faces", renumber_case("faces"), fn_renumber, quick=800, thorough=1500),
-    SubCheck("laplacian", laplacian_case(), fn_laplacian, quick=1000, thorough=1500),
+    SubCheck("field", field_case(), fn_field, quick=3000, thorough=8000),
+    SubCheck("renumber_vertices", renumber_case("vertices"), fn_renumber, quick=600, thorough=1500),
+    SubCheck("renumber_faces", renumber_case("faces"), fn_renumber, quick=600, thorough=1500),
+    SubCheck("laplacian", laplacian_case(), fn_laplacian, quick=800, thorough=1500),
 ]
 
 
